@@ -24,7 +24,7 @@ ASSUMPTIONS = [
 REAL = REAL_ALL
 STUB = STUB_ALL
 
-POLICIES = [["collect", "print"], ["collect"], ["collect", "fail"], ["collect", "stop", "print"], ["print"], ["collect", "fail", "stop", "print"]]
+POLICIES = [["collect", "print"], ["collect"], ["collect", "fail"], ["collect", "stop", "print"], ["print"], ["collect", "fail", "stop", "print"], ["collect", "quiet"], ["quiet", "fail", "print"]]
 
 
 def generate(rng, i, tier):
